@@ -17,6 +17,8 @@ N_THOROUGH = 1500000
 WALL_QUICK = 100
 WALL_THOROUGH = 1500
 
+REACH_FOCUS = {'ebb3_serial': None, 'ebb3_motion': None}
+
 RULE = ("Scenario = 1..3 devices, 1..3 EBBMotionWrap/EBB3 objects, a history of connect / request / disconnect "
         "calls interleaved across the objects, and a positional fault plan. Sweep part: for every registered "
         "request method x canonical argument shape, every single fault (each I/O ordinal x each exception class "
